@@ -735,8 +735,8 @@ def split_text(t):
 
 def driver_answers(run_driver, lines):
     out = run_driver("Dr", lines)
-    model = [o for l, o in zip(lines, out) if l.startswith("run\t") or l.startswith("levels\t")]
-    bad = [o for l, o in zip(lines, out) if not (l.startswith("run\t") or l.startswith("levels\t")) and o != "ok"]
+    model = [o for l, o in zip(lines, out) if l.startswith("run\t") or l.startswith("levels\t") or l.startswith("aprune\t")]
+    bad = [o for l, o in zip(lines, out) if not (l.startswith("run\t") or l.startswith("levels\t") or l.startswith("aprune\t")) and o != "ok"]
     return model, bad
 
 
@@ -777,6 +777,9 @@ def loaded_archive_history(world, graph, pre, store_skips, shared, via="run"):
     else:
         g1 = dict((c, dr.get_delegate(c).dependencies) for c in keys)
     err = None
+    # the graph in DICT order, as the pruning loop of dr.run will visit it
+    world.history_graph_line = "aprune\t" + (";".join("%d:%s" % (world.ids[k], ",".join(str(world.ids[d]) for d in g1[k] if d in world.ids))
+                                                       for k in g1) or "-")
     try:
         if via == "run_all":
             dr.run_all(g1, hb)
@@ -787,6 +790,10 @@ def loaded_archive_history(world, graph, pre, store_skips, shared, via="run"):
     except Exception as ex:
         err = ex
     # what this evaluation itself attempted, in order, and what it was given: it is an evaluation like any other
+    # dr.run prunes the dict it is given in place: what is left are the keys it evaluated
+    world.history_pruned = [world.ids[k] for k in g1] if via == "run" else None
+    world.history_text = canon_broker(world, hb)
+    world.history_fired = [c for c in hb.vlog["fired"] if c is not None]
     world.history_attempts = list(hb.vlog["attempts"])
     world.history_held = [(cid, canon_val(world, hb.instances.get(world.comps[cid]))) for cid, _ in pre]
     return err, before, edges()
